@@ -267,6 +267,8 @@ def build(c: dict, seed: int, unsupported: Optional[Tuple[str, Any]] = None) -> 
         g = torch.Generator().manual_seed(seed)
         V = c["V"]
         idx = torch.randint(0, V, tuple(c["idx"]), generator=g)
+        if c.get("avoid_padding") and c["padding_idx"] is not None:
+            idx = torch.where(idx == c["padding_idx"] % V, (idx + 1) % V, idx)
         kw = dict(padding_idx=c["padding_idx"], max_norm=c["max_norm"], norm_type=c["norm_type"])
         # max_norm renormalises the weight *in place* in both implementations: work on copies
         return Built(lambda w: U.embedding(idx, w * 1.0, **kw, **ukw), lambda w: F.embedding(idx, w * 1.0, **kw), [T([V, c["dim"]], 1)],
